@@ -26,7 +26,6 @@ import (
 	"io"
 	"net"
 	"net/http"
-	"net/http/httputil"
 	"net/url"
 	"sync"
 	"syscall"
@@ -907,6 +906,9 @@ func (s *Stream) dial(url *url.URL, callback func(err error, stream sonic.Stream
 	}
 }
 
+// maxHandshakeResponseLength bounds the header section of the server's handshake response.
+const maxHandshakeResponseLength = 64 * 1024
+
 func (s *Stream) upgrade(uri *url.URL, stream sonic.Stream, headers []Header) error {
 	req, err := http.NewRequest("GET", uri.String(), nil)
 	if err != nil {
@@ -943,30 +945,51 @@ func (s *Stream) upgrade(uri *url.URL, stream sonic.Stream, headers []Header) er
 		return err
 	}
 
-	s.handshakeBuffer = s.handshakeBuffer[:cap(s.handshakeBuffer)]
-	n, err := stream.Read(s.handshakeBuffer)
-	if err != nil {
-		return err
+	// Read the response up to and including the blank line which ends its header section. The response may arrive in
+	// several segments. A 101 response has no body: every byte following the blank line already belongs to the first
+	// frames and is handed to the frame decoder untouched.
+	b := s.handshakeBuffer[:0]
+	headerEnd := -1
+	for headerEnd < 0 {
+		if len(b) == cap(b) {
+			if len(b) >= maxHandshakeResponseLength {
+				return ErrCannotUpgrade
+			}
+			b = append(b, make([]byte, len(b)+1)...)[:len(b)]
+		}
+
+		searchFrom := len(b) - 3
+		if searchFrom < 0 {
+			searchFrom = 0
+		}
+
+		n, err := stream.Read(b[len(b):cap(b)])
+		if n > 0 {
+			b = b[:len(b)+n]
+			if ix := bytes.Index(b[searchFrom:], []byte("\r\n\r\n")); ix >= 0 {
+				headerEnd = searchFrom + ix + 4
+			}
+		}
+		if err != nil && headerEnd < 0 {
+			s.handshakeBuffer = b[:0]
+			if err == io.EOF && len(b) > 0 {
+				err = io.ErrUnexpectedEOF
+			}
+			return err
+		}
 	}
-	s.handshakeBuffer = s.handshakeBuffer[:n]
-	rd := bytes.NewReader(s.handshakeBuffer)
-	res, err := http.ReadResponse(bufio.NewReader(rd), req)
+	s.handshakeBuffer = b
+
+	res, err := http.ReadResponse(bufio.NewReader(bytes.NewReader(b[:headerEnd])), req)
 	if err != nil {
 		return err
 	}
 
-	rawRes, err := httputil.DumpResponse(res, true)
-	if err != nil {
-		return err
-	}
-
-	resLen := len(rawRes)
-	extra := len(s.handshakeBuffer) - resLen
-	if extra > 0 {
+	if len(b) > headerEnd {
 		// we got some frames as well with the handshake so we can put
 		// them in src for later decoding before clearing the handshake
 		// buffer
-		_, _ = s.src.Write(s.handshakeBuffer[resLen:])
+		_, _ = s.src.Write(b[headerEnd:])
 	}
 	s.handshakeBuffer = s.handshakeBuffer[:0]
 
